@@ -97,6 +97,11 @@ pub fn probe(cfg: &Cfg, rep: &mut Report) {
                 let g = a.grounded();
                 format!("{:?}", a.facet_count(&g))
             });
+            // depth of every condition on a fresh object, before any counting query (uncached code path)
+            emit(&format!("{}.cold_depths", bn), &mut || {
+                let a = mk();
+                a.ac.iter().map(|t| a.bdd.max_depth(*t).to_string()).collect::<Vec<_>>().join(",")
+            });
             let mut a = mk();
             let acs = a.ac.clone();
             for (j, t) in acs.iter().enumerate() {
